@@ -173,7 +173,7 @@ def run(ctx):
                       "smallest: %s %s -> %s" % (len(only_model), c.get("req", {}).get("method"), c.get("req", {}).get("host"),
                                                  c.get("obs", {}).get("status")))
     # pure functions
-    for kind, label in (("bcases", "basic-auth"), ("icases", "parse-ip"), ("hcases", "url-hostname"), ("tcases", "time-frame")):
+    for kind, label in (("pfcases", "time-frame-syntax"), ("bcases", "basic-auth"), ("icases", "parse-ip"), ("hcases", "url-hostname"), ("tcases", "time-frame")):
         mb, pb = bad.get(kind, ([], []))
         n_model_bad += len(mb)
         n_prop_bad += len(pb)
@@ -227,7 +227,7 @@ def run(ctx):
         "distribution": {k: meta.get(k) for k in (
             "configs", "sessions", "exchanges", "refused", "forwarded", "exchanges_by_status", "exchanges_by_method",
             "exchanges_by_credential_variant", "exchanges_by_host_variant", "exchanges_by_position_on_connection", "exchanges_inside_mitm_by_status_and_refusing_check",
-            "deny_matcher_hostnames_checked", "deny_matcher_hostname_differences", "hosts_file_aliases", "shard_case_counts")},
+            "deny_matcher_hostnames_checked", "deny_matcher_hostname_differences", "hosts_file_aliases", "shard_case_counts", "time_frame_syntax_cases", "time_frame_syntax_cases_accepted")},
         "samples": [{"end_to_end": [dict(spec=s.get("spec"), req=s.get("req"),
                                          obs={k: s.get("obs", {}).get(k) for k in ("status", "dials", "from_peer")})
                                     for s in (meta.get("samples") or [])]}],
